@@ -37,6 +37,25 @@ def run(repo, res):
     n = api_model.apply(res, server, {'reply': 'C15-R3', 'fallback': 'C15-R3', 'send': 'C15-R3'}, SERVER, srv.lineno)
     res.count('server_scenarios', n, floor=5)
     api_model.apply(res, [r for r in client if 'error reply' not in r[1]], {'call': 'C15-R4'}, REMOTE, env.lineno)
+    # the server writes a traceback to stderr for every failing request (logger.exception): a pipe nobody drains
+    # blocks it for ever once the kernel buffer is full, and every later request is lost
+    import ast
+    from ..core import unparse
+    tree = repo.tree(REMOTE)
+    npopen = 0
+    for c in ast.walk(tree):
+        if isinstance(c, ast.Call) and unparse(c.func).split('.')[-1] == 'Popen':
+            npopen += 1
+            piped = [k.arg for k in c.keywords if k.arg in ('stdin', 'stdout', 'stderr') and unparse(k.value).split('.')[-1] == 'PIPE']
+            drained = [k for k in piped if any(isinstance(a, ast.Attribute) and a.attr == k and isinstance(a.ctx, ast.Load)
+                                               for a in ast.walk(tree))
+                       or any(isinstance(a, ast.Attribute) and a.attr == 'communicate' for a in ast.walk(tree))]
+            bad = [k for k in piped if k not in drained]
+            res.check('C15-R3', 'server process stdio is not an undrained pipe', not bad, REMOTE, c.lineno,
+                      'the server is spawned with %s=PIPE and the client never reads it: the server logs a traceback per failing '
+                      'request, the pipe buffer fills after ~64 KiB and the server blocks in the middle of a reply - later requests '
+                      'are never answered' % ', '.join(bad), sample='Popen: stdio inherited or redirected, no undrained PIPE')
+    res.count('popen_sites', npopen, floor=1)
     res.assumptions.extend([
         'dumps/loads round-trip every value the serialiser accepts (C14) and raise on the others',
         'the connection delivers whole messages in order (multiprocessing.connection)',
